@@ -126,6 +126,29 @@ fn operators_vs_methods(rep: &Report, ellipsoids: &[String], tier: Tier, worst: 
                     break;
                 }
             }
+            // next to the polar axis (both routes have a shortcut for points ON the axis): cartesian points a tenth of a
+            // millimetre to ten metres from it, either hemisphere
+            let b = ell.a * (1. - ell.f);
+            let op = ctx.op(&format!("cart ellps={ellps}")).unwrap();
+            for p_axis in [1e-4, 1e-3, 2e-3, 3.9e-3, 5e-3, 0.1, 10.] {
+                for z in [b, -b, b + 100_000., -b - 8848., b - 10_000.] {
+                    for (cx, cy) in [(p_axis, 0.), (0., -p_axis), (p_axis * 0.6, p_axis * 0.8)] {
+                        rep.eval(1);
+                        let xyz = Coor4D([cx, cy, z, 2020.]);
+                        let back_method = e.geographic(&xyz);
+                        let mut d = [xyz];
+                        let _ = ctx.apply(op, Inv, &mut d);
+                        let dist = ell.ground(back_method[0], back_method[1], d[0][0], d[0][1]).max((back_method[2] - d[0][2]).abs());
+                        w = w.max(dist);
+                        if !(dist <= 1e-3) {
+                            rep.violation(
+                                "cart operator inverse and Ellipsoid::geographic differ by more than 1 mm (h <= 100 km) / next to the polar axis",
+                                json!({"ellps": ellps, "cartesian_input": xyz.0, "distance_from_axis_m": p_axis, "operator": d[0].0, "method": back_method.0, "distance_m": dist}),
+                            );
+                        }
+                    }
+                }
+            }
             let mut wm = worst.lock().unwrap();
             let en = wm.entry("cart operator inverse vs Ellipsoid::geographic (m)".into()).or_insert(0.);
             *en = en.max(w);
